@@ -9,6 +9,8 @@
 (*                                                                         *)
 (*   Mode = "index": ShapeIndex Add / Build / Reset and the three query    *)
 (*                   kinds, each of which first applies pending updates;   *)
+(*   Mode = "index-q": the same machine, one long-lived query object of   *)
+(*                   each kind reused across removals and rebuilds         *)
 (*   Mode = "eq":    one built index, several EdgeQuery objects reused     *)
 (*                   for FindEdges / Distance / IsDistanceLess calls;      *)
 (*   Mode = "loop":  a large Loop and a Polygon with Invert, point         *)
@@ -116,6 +118,9 @@ NewCEQ ==
 \* the answers: functions of the shapes currently held only
 ContainsAns(p) == {s \in Present : s = "SF" \/ CentreOf[s] = p}
 CrossAns(e) == IF CrossedBy[e] \in Present THEN 2 ELSE 0
+\* the same question asked of one shape at a time (CrossingEdgeQuery.Crossings with a shape argument):
+\* the long-lived query object must find the shape under whatever id it has now
+CrossPerShape(e) == [s \in Present \ {"SF"} |-> IF CrossedBy[e] = s THEN 2 ELSE 0]
 FindAllAns == TotalEdges(Present)
 
 \* A query object created in an earlier epoch may be reused once the index is fresh again
@@ -128,7 +133,7 @@ Contains(p) ==
 Cross(e) ==
     /\ ceq # -1 /\ status = "fresh"
     /\ UNCHANGED <<shapes, nextID, pendPos, status, indexed, epoch, cpq, ceq, eff, inv, lidx>>
-    /\ h' = Log([a |-> "Cross", x |-> e, r |-> CrossAns(e), st |-> St])
+    /\ h' = Log([a |-> "Cross", x |-> e, r |-> CrossAns(e), per |-> CrossPerShape(e), st |-> St])
 \* a fresh EdgeQuery (interiors excluded, all results): touches the cell map only on the optimized path
 FindAll(p) ==
     /\ IF TotalEdges(Present) > BruteForceLimit
@@ -144,6 +149,22 @@ IndexNext ==
     \/ \E p \in Points : Contains(p)
     \/ \E e \in QEdges : Cross(e)
     \/ \E p \in {"P0", "P2"} : FindAll(p)
+
+\* Mode = "index-q": the life of one CrossingEdgeQuery and one ContainsPointQuery object.  Each is
+\* created once and then reused while shapes are removed, added again (the same shape object gets
+\* a new id) and the index is rebuilt.
+\* Only the query points and edges that concern the catalogue are used, so that short exhaustive
+\* explorations reach: query, remove, add again, rebuild, query.  Mode = "index-ceq" leaves out the
+\* ContainsPointQuery.
+PointsQ == {p \in Points : \E s \in Catalog \ {"SF"} : CentreOf[s] = p}
+QEdgesQ == {e \in QEdges : CrossedBy[e] \in Catalog}
+IndexQNext ==
+    \/ \E s \in ShapeNames : Add(s) \/ Remove(s)
+    \/ Build \/ Reset
+    \/ Mode = "index-q" /\ cpq = -1 /\ NewCPQ
+    \/ ceq = -1 /\ NewCEQ
+    \/ Mode = "index-q" /\ \E p \in PointsQ : Contains(p)
+    \/ \E e \in QEdgesQ : Cross(e)
 
 \* ======================================================================== eq
 \* index = {S1, S2} built.  Query objects with user options (maxResults, limit).
@@ -247,12 +268,13 @@ Init ==
 
 Finish ==
     /\ Len(h) = MaxLen
-    /\ PrintT(<<"HIST", ToJson([op |-> "c13." \o Mode, steps |-> h])>>)
+    /\ PrintT(<<"HIST", ToJson([op |-> "c13." \o (IF Mode \in {"index-q", "index-ceq"} THEN "index" ELSE Mode), steps |-> h])>>)
     /\ UNCHANGED vars
 
 Next ==
     \/ /\ Len(h) < MaxLen
        /\ \/ Mode = "index" /\ IndexNext
+          \/ Mode \in {"index-q", "index-ceq"} /\ IndexQNext
           \/ Mode = "eq" /\ EqNext
           \/ Mode = "loop" /\ LoopNext
     \/ Finish
